@@ -794,6 +794,13 @@ def _run_fftinv(case, ck):
                 _roundtrip(ck, v, True, "%s layout=%s" % (cx.label(nm), lay),
                            acc, cx.spacing)
                 n_img += 1
+                if nm == "dense_c":
+                    # the same image in other units of amplitude
+                    for ex in (-60, 60):
+                        w = v.copy(data=np.asarray(v.values) * 2.0 ** ex)
+                        _roundtrip(ck, w, True, "2^%d * %s layout=%s" %
+                                   (ex, cx.label(nm), lay), acc, cx.spacing)
+                        n_img += 1
     return digest(*acc), {"fft_images": n_img}
 
 
@@ -923,6 +930,17 @@ def _run_linear(case, ck):
             cx.cmp("linearity", cx.Pv("i" + nm, d), 1j * cx.Pv(nm, d), 1.0,
                    ph, "P(i*%s) vs i*P(%s), d=%r, %s" %
                    (nm, nm, d, cx.label(nm)))
+        # homogeneity over many decades of amplitude (powers of two: the
+        # scaled input is exact)
+        for ex in (-60, 60):
+            c = 2.0 ** ex
+            x = c * cx.values("dense_c")
+            lab = "image %s 2^%d*dense_c sp=%s" % (_sid(cx.shape), ex,
+                                                   cx.spname)
+            r = cx.call(cx.mk(x), d, label=lab)
+            cx.cmp("linearity", cx.plane(r, lab), c * cx.Pv("dense_c", d),
+                   c * float(np.abs(cx.values("dense_c")).max()), ph,
+                   "P(c*x) vs c*P(x), c=2^%d, d=%r, %s" % (ex, d, lab))
         x = cx.values("dense_c")
         cx.cmp("linearity", cx.Pv("dense_c", d),
                cx.Pv("dense_c.re", d) + 1j * cx.Pv("dense_c.im", d),
@@ -1041,6 +1059,18 @@ def _run_opts(case, ck):
                        "%s d=%r cfsp=%r gradient_filter=%r: P(image) vs "
                        "sum_k image_k P(e_k)" % (cx.label(nm), d0, cfsp, gf))
             cx.acc.append(np.round(M.ravel()[:64], 9))
+    # distance zero returns the input whatever the options
+    for cfsp, gf in OPT_COMBOS[1:]:
+        for nm in probes:
+            a = cx.image(nm)
+            for z in _zeros():
+                r = cx.call(a, z, cfsp, gf, label=cx.label(nm),
+                            fp_before=cx.fp0[nm])
+                if fp_xarray(r) != cx.fp0[nm]:
+                    _fail(ck, "d0-identity", "propagate(%s, %r, cfsp=%r, "
+                          "gradient_filter=%r) is not the input" %
+                          (cx.label(nm), z, cfsp, gf), obs=_short(r.values),
+                          exp=_short(a.values))
     for nm, d in work:
         sc = float(np.abs(cx.values(nm)).max())
         # cascaded propagation is still propagation by d
